@@ -604,7 +604,12 @@ func (javascriptTransform *JavascriptTransform) transformEntities(
 	jobTag string,
 ) ([]*server.Entity, error) {
 	var transformFunc func(entities []*server.Entity) (interface{}, error)
-	err := javascriptTransform.Runtime.ExportTo(javascriptTransform.Runtime.Get("transform_entities"), &transformFunc)
+	jsFunc := javascriptTransform.Runtime.Get("transform_entities")
+	if jsFunc == nil {
+		// the code does not define the function: ExportTo would dereference the nil value and take the hub down
+		return nil, errors.New("transform code does not define a transform_entities function")
+	}
+	err := javascriptTransform.Runtime.ExportTo(jsFunc, &transformFunc)
 	if err != nil {
 		return nil, err
 	}
